@@ -40,13 +40,10 @@ Print Assumptions signature_length.
 (* tightness: the bound is reached (all four input kinds, all four output kinds, maximal
    signatures, two of them handed over with a high S) *)
 Theorem estimate_tight :
-  let ops := [OPkhIn 1 true; OPkhIn 1 false; OShIn 1 126 true; OShIn 1 126 false;
-              OPkhOut 1 true; OPkhOut 1 false; OShOut 1 true; OShOut 1 false] in
-  let ins := [mk_rin (KSh false redeem126) r33 s_high32; mk_rin (KPkh true) r33 s_low32;
-              mk_rin (KSh true redeem126) r33 s_low32; mk_rin (KPkh false) r33 s_high32] in
-  let outs := [out_of 22; out_of 25; out_of 34; out_of 23] in
-  exists T e, build ins outs = Some T /\ estimate ops = VOk e /\ vsize T = e
-              /\ map (fun i => len (sig_bytes_with der_serialize i)) ins = [72; 72; 72; 72].
+  (* [tight_ops] announces one input of each of the four kinds (126-byte redeem scripts) and one
+     output of each kind; [tight_ins], [tight_outs] are exactly that (Proofs/C30.v) *)
+  exists T e, build tight_ins tight_outs = Some T /\ estimate tight_ops = VOk e /\
+    ((vsize T =? e) && forallb (fun i => len (sig_bytes_with der_serialize i) =? 72) tight_ins) = true.
 Proof. exact Proofs.C30.estimate_tight. Qed.
 Print Assumptions estimate_tight.
 
@@ -54,12 +51,9 @@ Print Assumptions estimate_tight.
    serialiser that skips it a 73-byte signature exists and the real transaction of EXACTLY the
    announced shape is larger than the estimate *)
 Theorem high_s_would_undershoot :
-  let ops := [OPkhIn 1 false; OPkhOut 1 true] in
-  let ins := [mk_rin (KPkh false) r33 s_high] in
-  let outs := [out_of 22] in
-  exists T e, build_with der_raw ins outs = Some T /\ estimate ops = VOk e /\ e < vsize T
-              /\ map (fun i => len (sig_bytes_with der_raw i)) ins = [73]
-              /\ in_covered (SPkh false) (KPkh false) = true /\ out_covered (TPkh true) (out_of 22) = true.
+  exists T e, build_with der_raw high_ins [out_of 22] = Some T /\ estimate [OPkhIn 1 false; OPkhOut 1 true] = VOk e /\
+    ((e <? vsize T) && forallb (fun i => len (sig_bytes_with der_raw i) =? 73) high_ins
+     && in_covered (SPkh false) (KPkh false) && out_covered (TPkh true) (out_of 22)) = true.
 Proof. exact Proofs.C30.high_s_would_undershoot. Qed.
 Print Assumptions high_s_would_undershoot.
 
@@ -68,10 +62,8 @@ Print Assumptions high_s_would_undershoot.
    (1 byte), the real script needs 2 bytes, and the estimate is one vbyte short.  (tBTC redeem
    scripts are the 92 / 126 byte deposit scripts.) *)
 Theorem one_byte_redeem_undershoots :
-  let ops := [OShIn 1 1 false; OPkhOut 1 true] in
-  let ins := [mk_rin (KSh false [81]) r33 s_low32] in
-  let outs := [out_of 22] in
-  exists T e, build ins outs = Some T /\ estimate ops = VOk e /\ vsize T = e + 1.
+  exists T e, build [mk_rin (KSh false [81]) r33 s_low32] [out_of 22] = Some T /\
+              estimate [OShIn 1 1 false; OPkhOut 1 true] = VOk e /\ (vsize T =? e + 1) = true.
 Proof. exact Proofs.C30.one_byte_redeem_undershoots. Qed.
 Print Assumptions one_byte_redeem_undershoots.
 
@@ -116,9 +108,8 @@ Print Assumptions actual_size_formula.
 (* callers (pkg/tbtcpg): what estimateDepositsSweepFee announces does not cover P2SH deposits;
    a sweep of two 126-byte P2SH deposits is more than 300 vbytes above the estimate *)
 Theorem sweep_p2sh_deposits_exceed_estimate :
-  let ins := [mk_rin (KPkh true) r33 s_low32; mk_rin (KSh false redeem126) r33 s_low32;
-              mk_rin (KSh false redeem126) r33 s_low32] in
-  exists T e, build ins [out_of 22] = Some T /\ estimate (sweep_ops 2) = VOk e /\ e + 300 < vsize T.
+  exists T e, build p2sh_sweep_ins [out_of 22] = Some T /\ estimate (sweep_ops 2) = VOk e /\
+              (e + 300 <? vsize T) = true.
 Proof. exact Proofs.C30.sweep_p2sh_deposits_exceed_estimate. Qed.
 Print Assumptions sweep_p2sh_deposits_exceed_estimate.
 
